@@ -27,6 +27,25 @@ def check(rep, tier):
     recs += sr.catalogue(rng, tier, dims=("homogeneous", "spatial_1D"), cn=-19, n0=1, n1=1, confs=["shelf"])
     # 2D: the coldest point need not be in the layer touching the shelf (VISF: the top is cooled by evaporation)
     recs += sr.catalogue(rng, tier, dims=("spatial_2D",), cn=True, n2=1 if tier == "quick" else 3, confs=["VISF", "jacket", "shelf"], early_vacuum=True)
+    # a trigger of exactly 0 C (a falsy number), in every dimensionality
+    recs += sr.catalogue(rng, tier, dims=("homogeneous", "spatial_1D") if tier == "quick" else ("homogeneous", "spatial_1D", "spatial_2D"), cn=0.0, n0=1, n1=1, n2=1, confs=["shelf"])
+    # history: the trigger temperature is changed IN PLACE on the object's operating conditions after construction
+    for dim in (("homogeneous", "spatial_1D") if tier == "quick" else ("homogeneous", "spatial_1D", "spatial_2D")):
+        for first in ((-10.0,) if tier == "quick" else (-10.0, None)):
+            prog = dict(start=10, end=-50, rate=2.0 / 60, holds=[], t_tot=3600.0, dt=1.0)
+            h, d = (0.01, 0.01) if dim == "homogeneous" else (0.05, 0.05 if dim == "spatial_1D" else 0.1)
+            try:
+                S = sr.make(dim=dim, conf="shelf", height=h, diameter=d, K=200 if dim != "homogeneous" else 50, prog=prog, cnTemp=first)
+                dt, _ = sr.step_info(S)
+                if dim != "homogeneous":
+                    prog["t_tot"] = float(int(dt * 9800))
+                    S = sr.make(dim=dim, conf="shelf", height=h, diameter=d, K=200, prog=prog, cnTemp=first)
+                rec = dict(label="%s/shelf history: built with cnTemp=%r, then S.opcond.cnTemp = -5 in place, run" % (dim, first), dim=dim, conf="shelf", S=S, dt=dt, prog=prog, cnTemp=-5.0, error=None)
+                S.opcond.cnTemp = -5.0
+                sr.run(S)
+            except Exception as e:
+                rec = dict(label="%s history cnTemp in place" % dim, dim=dim, S=None, dt=None, cnTemp=-5.0, error=e)
+            recs.append(rec)
     cases, labs = [], []
     for rec in recs:
         S, dt, lab = rec["S"], rec["dt"], rec["label"]
